@@ -180,3 +180,65 @@ def c07(tier, seed):
                      "decided at the API level from FENTER events"],
         required_reach=["cp_table_checks", "order_checks", "FENTER"], parallel=8 if tier == "quick" else 16,
     )
+
+
+# ------------------------------------------------------------------------------------------------ differential
+RULE_DIFF = (
+    "generated describing functions (source text; positional/keyword/default/constant arguments, indexing and unpack_to, arithmetic / "
+    "comparison / unary operators, and_/or_/not_, reused functions, None/single/tuple/list/dict returns, defaulted DAG parameters, "
+    "twz_active / twz_tag, nested DAG calls) are exec-ed twice: with xn/dag objects and with the plain callables; each program x 3 "
+    "argument tuples (fresh symbolic leaves and falsy/truthy constants) x a random configuration (max_concurrency 1..4, attributes "
+    "given by decorator or config_from_dict/yaml/json, sync/async, controlled random completion order or free running); values are "
+    "hash-consed symbolic terms compared by identity; non-trivial = reference returned normally and the program has >= 2 call "
+    "sites; distinct = distinct (source hash, (observed enter/exit order, arguments, max_concurrency, flavour) hash)"
+)
+ASSUME_DIFF = [
+    "the reference semantics is the same source text run with plain callables (a deactivated call yields None, a deactivated nested "
+    "DAG yields its return shape filled with None)",
+    "programs/arguments for which the plain-Python run raises are skipped and counted (ref_raised_skipped)",
+    "outside the generated fragment (DESIGN.md section 6): same inner DAG object called twice in one DAG, inner DAG returning a "
+    "constant, containers nested deeper than 1, indexing/unpacking/operators on the result of a flagged call",
+]
+
+
+def diff_jobs(pid, tier, seed, feats, depth, scale=1.0, clauses=True):
+    if tier == "quick":
+        nj, np_ = 8, int(70 * scale)
+    else:
+        nj, np_ = 32, int(900 * scale)
+    return [dict(kind="diff", pid=pid, n_programs=np_, reps=3, feats=feats, depth=depth, clauses=clauses, **_seeds(seed, k)) for k in range(nj)]
+
+
+@plan("C01")
+def c01(tier, seed):
+    return dict(
+        jobs=diff_jobs("C01", tier, seed, dict(flags=0.2, nest=0.15, nest_flag=0.15, share_fns=0.3), 2),
+        level="exploration", rule=RULE_DIFF, assumptions=ASSUME_DIFF,
+        required_reach=["value_comparisons", "programs", "FENTER", "XENTER"], parallel=8 if tier == "quick" else 16,
+    )
+
+
+@plan("C10")
+def c10(tier, seed):
+    return dict(
+        jobs=diff_jobs("C10", tier, seed, dict(flags=0.5, nest=0.25, nest_flag=0.6, max_stmts=7, ops=0.08, kwargs=0.3), 2),
+        level="exploration",
+        rule=RULE_DIFF + "; flag forms: every truthy/falsy constant, DAG argument, node result, result[key], nested keys, unpacked element, "
+        "and_/or_/not_ and operator expressions; positions: plain call site, reused function, call site inside an inner DAG, nested-DAG "
+        "call. Per flagged call site: entered iff the flag is truthy in the reference run; every executed call site received the "
+        "reference's argument terms (None from deactivated producers)",
+        assumptions=ASSUME_DIFF,
+        required_reach=["c10_flagged_sites", "c10_flag_truthy", "c10_flag_falsy", "c10_dependent_arg_checks"], parallel=8 if tier == "quick" else 16,
+    )
+
+
+@plan("C20")
+def c20(tier, seed):
+    return dict(
+        jobs=diff_jobs("C20", tier, seed, dict(flags=0.1, nest=0.45, nest_flag=0.0, share_fns=0.6, max_stmts=7), 3, scale=0.7),
+        level="exploration",
+        rule=RULE_DIFF + "; nesting to depth 3, inner signatures with required and defaulted parameters, call forms supplying fewer / all "
+        "parameters as constants or results, all return shapes, outer unpack / static index / pass-on, the SAME decorated functions used "
+        "inside and outside the inner DAG (id prefixing must keep them apart)",
+        assumptions=ASSUME_DIFF, required_reach=["value_comparisons", "programs"], parallel=8 if tier == "quick" else 16,
+    )
